@@ -7,6 +7,12 @@ A *scenario* is a JSON-able dict
     {"worker": "asyncio" | "trio",
      "lifespan": ["recv", "await", "startup_complete", ...],      # LIFESPAN_ACTS
      "await_s": 0.15,                                             # duration of one "await" action
+     "escape": ["sibling", ["own"]] | {"taskgroups": 2},          # optional: how an exception leaves the lifespan application - wrapped in
+                                                                  # exception groups built from this template ("own" = the script's exception,
+                                                                  # "sibling" = another exception next to it, a list = one group), or by running
+                                                                  # the script inside that many REAL nested task groups / nurseries
+     "ls_writes": false,                                          # optional: the lifespan application stores nothing in its state (default: it
+                                                                  # writes boot = "L" first thing)
      "config": {"startup_timeout": .., "shutdown_timeout": .., "graceful_timeout": .., "max_requests": null | n},
      "clients": [{"id": 0, "kind": "h1" | "h2" | "ws" | "h2c" | "seq", "steps": [[...], ...]}, ...],
      "trigger_at": seconds | null,                                # when the harness lets `shutdown_trigger` return
@@ -142,15 +148,64 @@ def _jsonable_state(d: Any) -> Dict[str, Any]:
     return {str(k): (v if isinstance(v, (str, int, float, bool, type(None))) else repr(v)) for k, v in dict(d).items()}
 
 
+def wrap_exception(template: Any, own: BaseException) -> BaseException:
+    """the exception `own` packed into exception groups after `template`: "own" = `own` itself, "sibling" = another exception
+    raised next to it, a list = one `BaseExceptionGroup` of its members"""
+    if template == "own":
+        return own
+    if template == "sibling":
+        return ScriptedRaise("sibling")
+    if isinstance(template, list) and template:
+        return BaseExceptionGroup("scripted group", [wrap_exception(t, own) for t in template])
+    raise HarnessFailure(f"bad escape template {template!r}")
+
+
+def escape_wrap(escape: Any) -> Any:
+    """the escape of a scenario as a wrap template (`{"taskgroups": n}` = n groups around the script's own exception)"""
+    if isinstance(escape, dict):
+        w: Any = "own"
+        for _ in range(int(escape.get("taskgroups", 0))):
+            w = [w]
+        return w
+    return escape
+
+
+async def _in_task_groups(depth: int, body: Callable) -> None:
+    """run `body()` as the only child task of `depth` nested task groups (asyncio.TaskGroup) / nurseries (trio)"""
+    if depth <= 0:
+        await body()
+        return
+    import sniffio
+    if sniffio.current_async_library() == "trio":
+        import trio
+        async with trio.open_nursery() as nursery:
+            nursery.start_soon(_in_task_groups, depth - 1, body)
+    else:
+        import asyncio
+        async with asyncio.TaskGroup() as tg:
+            tg.create_task(_in_task_groups(depth - 1, body))
+
+
 def make_app(rec: Recorder, sc: dict, on_ls_start: Optional[Callable[[], None]] = None) -> Callable:
     script = list(sc["lifespan"])
     await_s = float(sc.get("await_s", 0.15))
+
+    escape = sc.get("escape")
 
     async def lifespan(scope, receive, send) -> None:
         if on_ls_start is not None:
             on_ls_start()
         rec.add("ls_start")
-        scope["state"]["boot"] = "L"
+        if sc.get("ls_writes", True):
+            scope["state"]["boot"] = "L"
+        if isinstance(escape, dict) and escape.get("taskgroups"):
+            # anyio / Starlette style: the script runs in a child task of (nested) task groups / nurseries; whatever it raises
+            # leaves the application wrapped in one exception group per level - built by the runtime, not by the harness
+            await _in_task_groups(int(escape["taskgroups"]), lambda: lifespan_script(scope, receive, send))
+        else:
+            await lifespan_script(scope, receive, send)
+
+    async def lifespan_script(scope, receive, send) -> None:
         pending: Optional[BaseException] = None
         i = 0
         while i < len(script):
@@ -194,6 +249,8 @@ def make_app(rec: Recorder, sc: dict, on_ls_start: Optional[Callable[[], None]] 
                 pending = e
         if pending is not None:
             rec.add("ls_exit", how="raise", cls=type(pending).__name__)
+            if isinstance(escape, list):
+                raise wrap_exception(escape, pending)
             raise pending
         rec.add("ls_exit", how="return")
 
@@ -1087,6 +1144,111 @@ def run_disciplined(ctx: Any, scs: List[dict], procs: int, timeout: float = 40.0
     return obs
 
 
+class Findings:
+    """What the monitors and the model comparison say about ONE run of ONE real-clock scenario.  It has the reporting half of
+    the Ctx interface (`violation`, `disagree`, `count`, `disagreements_checked`), so `monitors(f, …)` / `compare(f, …)` are
+    written once; nothing reaches the verdict before `judge_with_reruns` has decided."""
+
+    def __init__(self) -> None:
+        self.items: List[dict] = []
+        self.counts: List[tuple] = []
+        self.disagreements_checked = 0
+
+    def violation(self, clause: str, case: Any, detail: Any, signature: Optional[dict] = None) -> None:
+        self.items.append({"kind": "violation", "clause": clause, "case": case, "detail": detail, "signature": signature})
+
+    def disagree(self, what: str, case: Any, model: Any, impl: Any) -> None:
+        self.items.append({"kind": "disagree", "what": what, "case": case, "model": model, "impl": impl})
+
+    def count(self, family: str, key: Any, n: int = 1) -> None:
+        self.counts.append((family, key, n))
+
+    @staticmethod
+    def item_keys(it: dict) -> set:
+        """what makes a finding 'the same finding' on another run of the scenario: clause + signature of a violation; the
+        command and each labelled difference of a disagreement (the values may differ from run to run)"""
+        if it["kind"] == "violation":
+            return {("violation", it["clause"], json.dumps(it["signature"], sort_keys=True, default=str))}
+        diffs = it["model"] if isinstance(it["model"], (list, tuple)) else []
+        labels = [d[0] for d in diffs if isinstance(d, (list, tuple)) and d and isinstance(d[0], str)]
+        return {("disagree", it["what"], l) for l in labels} or {("disagree", it["what"])}
+
+    @staticmethod
+    def item_label(it: dict) -> str:
+        return it["clause"] if it["kind"] == "violation" else it["what"] + ": " + ", ".join(sorted(k[-1] for k in Findings.item_keys(it) if len(k) > 2))
+
+    def keys(self) -> set:
+        out: set = set()
+        for it in self.items:
+            out |= Findings.item_keys(it)
+        return out
+
+    def flush(self, ctx: Any, items: Optional[List[dict]] = None) -> None:
+        for fam, key, n in self.counts:
+            ctx.count(fam, key, n)
+        ctx.disagreements_checked += self.disagreements_checked
+        for it in (self.items if items is None else items):
+            if it["kind"] == "violation":
+                ctx.violation(it["clause"], it["case"], it["detail"], it["signature"])
+            else:
+                ctx.disagree(it["what"], it["case"], it["model"], it["impl"])
+
+
+RERUNS = 2      # a scenario about which something is to be reported is first run again, alone, at most this many times
+
+
+def judge_with_reruns(ctx: Any, scs: List[dict], obs: List[dict], judge: Callable[[Any, int, dict, dict], None],
+                      timeout: float = 40.0) -> List[dict]:
+    """The report rule of the real-clock scenarios.  `judge(f, i, scenario, observation)` evaluates ONE run (monitors and model
+    comparison) into the `Findings` `f`.  A run about which nothing is said is reported as it is.  A scenario about which
+    something is said (a violation, a model / implementation difference) is run again ALONE (one scenario process at a time; the
+    lateness discipline of `run_disciplined` still applies) before anything is reported: what the first run said and the re-run says
+    again is reported, with the re-run's observation; a re-run that says nothing ends it; a re-run that says something else is
+    followed by one more.  What does not come back is real-clock noise of a loaded machine (a wall-clock scenario among many on
+    a busy box), counted under `not_reproduced_on_rerun` with a sample in the evidence - never silently.  A deterministic defect
+    says the same thing on every run.  Returns the observations that were judged last."""
+    final = list(obs)
+    firsts: List[Findings] = []
+    for i, (sc, o) in enumerate(zip(scs, obs)):
+        f = Findings()
+        judge(f, i, sc, o)
+        firsts.append(f)
+    for i, first in enumerate(firsts):
+        if not first.items:
+            first.flush(ctx)
+            continue
+        ctx.count("rerun_for_findings", "scenarios")
+        seen = first.keys()
+        said = list(first.items)
+        last = first
+        reported: List[dict] = []
+        for attempt in range(1, RERUNS + 1):
+            (o2,) = run_disciplined(ctx, [scs[i]], 1, timeout)
+            f2 = Findings()
+            judge(f2, i, scs[i], o2)
+            final[i], last = o2, f2
+            reported = [it for it in f2.items if Findings.item_keys(it) & seen]
+            if reported or not f2.items:
+                break
+            seen |= f2.keys()
+            said += f2.items
+        last.flush(ctx, reported)
+        back = set()
+        for it in reported:
+            back |= Findings.item_keys(it)
+            ctx.count("reproduced_on_rerun", Findings.item_label(it))
+        pool = said + [x for x in last.items if all(x is not y for y in said)]
+        gone = [it for it in pool if all(it is not y for y in reported) and not (Findings.item_keys(it) & back)]
+        for it in gone:
+            ctx.count("not_reproduced_on_rerun", Findings.item_label(it))
+        if gone and len(ctx.extra.setdefault("not_reproduced_on_rerun_samples", [])) < 5:
+            ctx.extra["not_reproduced_on_rerun_samples"].append(
+                {"scenario": {k: scs[i].get(k) for k in ("name", "worker", "kinds", "source", "phases") if k in scs[i]},
+                 "said_once": [{"finding": Findings.item_label(it), "what": json.loads(json.dumps(it.get("detail", it.get("model")), default=str))}
+                               for it in gone[:4]]})
+    return final
+
+
 def events_of(obs: dict, kind: str, **match: Any) -> List[list]:
     return [e for e in obs["events"] if e[2] == kind and all(e[3].get(k) == v for k, v in match.items())]
 
@@ -1253,6 +1415,23 @@ def check_runtime_constants(ctx: Any, flags: Dict[str, dict]) -> None:
     if r is None:
         return
     consts = r[0]["ok"]
+
+    def diffs(fls: Dict[str, dict]) -> Dict[str, dict]:
+        return {w: {k: (consts[fl["base"]][k], v) for k, v in fl.items() if k in consts[fl["base"]] and consts[fl["base"]].get(k) != v}
+                for w, fl in fls.items()}
+    first = diffs(flags)
+    if any(first.values()):
+        # the probes are real-clock measurements too: a flag that does not measure as the constant says is measured once more
+        # before anything is reported (and before the models are run with it); what does not come back is noise, counted
+        again = probe_flags()
+        second = diffs(again)
+        for worker, d in first.items():
+            for k in d:
+                if second.get(worker, {}).get(k) != d[k]:
+                    ctx.count("not_reproduced_on_rerun", f"runtime flag {worker}.{k}")
+                    flags[worker][k] = again[worker][k]
+                else:
+                    ctx.count("reproduced_on_rerun", f"runtime flag {worker}.{k}")
     for worker, fl in flags.items():
         base = consts[fl["base"]]
         diff = {k: (base[k], v) for k, v in fl.items() if k in base and base.get(k) != v}
@@ -1273,8 +1452,9 @@ def model_request(sc: dict, cmd: str, flags: Dict[str, dict]) -> dict:
         evs.append({"t": max(0, ticks(t)), "op": op, "_o": order, **kw})
         order += 1
 
-    # the lifespan application writes its marker before anything else
-    ev(0.0, "life_write", k=KEYS["boot"], v=VAL_L)
+    # the lifespan application writes its marker before anything else (unless the scenario says it stores nothing)
+    if sc.get("ls_writes", True):
+        ev(0.0, "life_write", k=KEYS["boot"], v=VAL_L)
     script: List[str] = []
     t_app = 0.0
     for act in sc["lifespan"]:
